@@ -43,7 +43,7 @@ def enc_recover(steps):
     for name, arg in steps:
         out += u32be(codes[name])
         if name in ("append", "prepend"):
-            out += u32be(arg)
+            out += u32be(arg) if isinstance(arg, int) else cells_of(arg)  # (symbolic length: 4 big-endian cells supplied by the harness)
     return out + u32be(0)
 
 
